@@ -46,6 +46,8 @@ fn run_case(case: &[i64]) -> Vec<i64> {
         6 => mp::run_mp_case(&case[1..]),
         #[cfg(feature = "devices")]
         7 => world::run_world_case(&case[1..]),
+        #[cfg(feature = "devices")]
+        8 => world::run_axle_index_case(&case[1..]),
         _ => vec![W_BAD],
     }));
     match r {
